@@ -140,16 +140,28 @@ def hosvdStep (ops : NumOps α) (eigh : Nat → Mat α → List α × Mat α) (t
       | .ok Y' => .ok ⟨Y', st.factors.set k U, st.ranks.set k r, st.trace ++ [rec']⟩
     else .ok ⟨st.Y, st.factors.set k U, st.ranks.set k r, st.trace ++ [rec']⟩
 
+/-- `ranks = np.zeros(d) if ranks is None else parse_one_d(ranks).copy()`. -/
+def reqRanks (ranks : Option (List Nat)) (d : Nat) : List Nat :=
+  match ranks with
+  | none => List.replicate d 0
+  | some r => r
+
+/-- `dimorder = np.arange(d) if dimorder is None else parse_one_d(dimorder)`. -/
+def modeOrder (dimorder : Option (List Nat)) (d : Nat) : List Nat :=
+  match dimorder with
+  | none => List.range d
+  | some o => o
+
 /-- `hosvd(input_tensor, tol, verbosity=0, dimorder, sequential, ranks)`, returning the Tucker
 tensor and the per-mode record. -/
 def hosvdRun (ops : NumOps α) (eigh : Nat → Mat α → List α × Mat α) (X : Dense α) (tol : α)
     (dimorder : Option (List Nat)) (sequential : Bool) (ranks : Option (List Nat)) :
     Except Reject (Ttensor α × List (ModeRec α)) :=
   let d := X.shape.length
-  let ranks0 := match ranks with | none => List.replicate d 0 | some r => r
+  let ranks0 := reqRanks ranks d
   if ranks0.length != d then .error .reject
   else
-    let order := match dimorder with | none => List.range d | some o => o
+    let order := modeOrder dimorder d
     if !isPermOf order d then .error .reject
     else
       let normxsqr := normSq X
